@@ -1204,10 +1204,41 @@ def _branch_rng_reset(scope_fn, variable_groups, rng_groups):
     for s in jax.tree_util.tree_leaves(scope_fn(variable_groups, rng_groups))
   ]
 
+  branch_counts = []
+
   def reset(scopes):
     for s, counts in zip(jax.tree_util.tree_leaves(scopes), rng_counts):
       _restore_rng_counts(s.rng_counters, counts)
 
+  def record(scopes):
+    branch_counts.append([
+      _copy_rng_counts(s.rng_counters)
+      for s in jax.tree_util.tree_leaves(scopes)
+    ])
+
+  def finish():
+    # after the conditional the counters are past the draws of EVERY branch
+    # (branches may draw different numbers of keys): no key is handed out twice.
+    def merge(a, b):
+      out = dict(a)
+      for k, v in b.items():
+        if isinstance(v, dict):
+          out[k] = merge(out[k], v) if isinstance(out.get(k), dict) else v
+        else:
+          out[k] = max(out.get(k, v), v)
+      return out
+
+    if not branch_counts:
+      return
+    merged = branch_counts[0]
+    for counts in branch_counts[1:]:
+      merged = [merge(a, b) for a, b in zip(merged, counts)]
+    scopes = jax.tree_util.tree_leaves(scope_fn(variable_groups, rng_groups))
+    for s, counts in zip(scopes, merged):
+      _restore_rng_counts(s.rng_counters, counts)
+
+  reset.record = record
+  reset.finish = finish
   return reset
 
 
@@ -1268,12 +1299,15 @@ def cond(
       scope = scope_fn(variable_groups, rng_groups)
       reset_rng_counts(scope)
       y = branch_fn(scope, *operands)
+      reset_rng_counts.record(scope)
       return y, repack_fn(scope)
 
     pure_branches = [
       functools.partial(branch_wrapper, branch_fn) for branch_fn in branches
     ]
-    return jax.lax.cond(pred, pure_branches[0], pure_branches[1], *operands)
+    out = jax.lax.cond(pred, pure_branches[0], pure_branches[1], *operands)
+    reset_rng_counts.finish()
+    return out
 
   return pack(inner, (variables,), (variables,), (rngs,), name='cond')(scope)
 
@@ -1357,12 +1391,15 @@ def switch(
       scope = scope_fn(variable_groups, rng_groups)
       reset_rng_counts(scope)
       y = branch_fn(scope, *operands)
+      reset_rng_counts.record(scope)
       return y, repack_fn(scope)
 
     pure_branches = [
       functools.partial(branch_wrapper, branch_fn) for branch_fn in branches
     ]
-    return jax.lax.switch(index, pure_branches, *operands)
+    out = jax.lax.switch(index, pure_branches, *operands)
+    reset_rng_counts.finish()
+    return out
 
   return pack(inner, (variables,), (variables,), (rngs,), name='switch')(scope)
 
